@@ -601,9 +601,20 @@ def _invoke(fn, args, kw, limit, findings, where, type_only):
         if worlds.link_witness(e):
             site = worlds.innermost_package_frame(e)
             if site is not None:
-                findings.append({'oracle': 'D', 'key': _link_key(site, e),
+                findings.append({'oracle': 'D', 'key': _link_key(site, e), 'alt_keys': [_link_key(s_, e) for s_ in _package_frames(e)],
                                  'where': where, 'fn': fn, 'detail': '%s: %s' % (type(e).__name__, str(e)[:200])})
         return ('exc', worlds.enc_exc(e, type_only))
+
+
+def _package_frames(e):
+    out = []
+    tb = e.__traceback__
+    while tb is not None:
+        fn = tb.tb_frame.f_code.co_filename
+        if 'kneeliverse' in fn:
+            out.append((fn.rsplit('/', 1)[-1][:-3], tb.tb_frame.f_code.co_name))
+        tb = tb.tb_next
+    return out
 
 
 def _link_key(site, e):
@@ -789,6 +800,14 @@ def run_sim(plan, stats):
         worlds.install_poison(plan['poison_seed'], poison_sites)
     import os as _os
     from . import core as _core
+    try:
+        import multiprocessing as _mp
+        _mp.parent_process = lambda: None                       # "this is the main process"
+        import multiprocessing.process as _mpp
+        _mpp.parent_process = lambda: None
+        _mp.current_process().name = 'MainProcess'
+    except Exception:
+        pass
     if _core.IMPORT_PID is not None:
         # the simulated world is "the process that imported the package" (the isolated world runs in forked workers):
         # code that remembers its importing pid behaves accordingly
@@ -902,6 +921,9 @@ def run_sim(plan, stats):
 def _arrays(v, depth=0):
     if isinstance(v, np.ndarray):
         return [v]
+    fields = worlds.object_fields(v) if depth < 3 else None
+    if fields is not None:
+        v = fields
     if isinstance(v, (list, tuple, dict)) and depth < 3:
         out = []
         for x in (v.values() if isinstance(v, dict) else v):
@@ -925,8 +947,6 @@ def _ambient():
     # any effect on results)
     return {
         'np.geterr': repr(sorted(np.geterr().items())),
-        'np.printoptions': repr(sorted((k, repr(v)) for k, v in np.get_printoptions().items())),
-        'recursionlimit': _sys.getrecursionlimit(),
         'cwd': os.getcwd(),
         'files(cwd)': repr(sorted((n, os.path.getsize(os.path.join('.', n)) if os.path.isfile(n) else -1) for n in os.listdir('.')))
         if os.environ.get('KNEESIM_RUNDIR') else '',
@@ -940,6 +960,9 @@ def _ambient():
 def _has_array(v, depth=0):
     if isinstance(v, np.ndarray):
         return True
+    fields = worlds.object_fields(v) if depth < 3 else None
+    if fields is not None:
+        v = fields
     if isinstance(v, (list, tuple, dict)) and depth < 3:
         return any(_has_array(x, depth + 1) for x in (v.values() if isinstance(v, dict) else v))
     return False
